@@ -1330,6 +1330,7 @@ func (s *Scorch) updateBolt(fieldInfo map[string]*index.UpdateFieldInfo, mapping
 // returns the set of file callback writer ids in use by all of the segments and boltdb
 func (s *Scorch) FileWriterIDsInUse() (map[string]struct{}, error) {
 	s.rootLock.RLock()
+	defer s.rootLock.RUnlock()
 	keyMap := make(map[string]struct{})
 	for _, segmentSnapShot := range s.root.segment {
 		if seg, ok := segmentSnapShot.segment.(segment.SegmentWithCallbacks); ok {
@@ -1355,7 +1356,6 @@ func (s *Scorch) FileWriterIDsInUse() (map[string]struct{}, error) {
 	for k, _ := range boltKeys {
 		keyMap[k] = struct{}{}
 	}
-	s.rootLock.RUnlock()
 
 	return keyMap, nil
 }
